@@ -47,6 +47,9 @@ def main(tier='quick'):
                 mid = rng.choice(K.MIDS)
                 tr, extra = K.run_move_scp(rng, pol, mid, rng.choice([1, 3, 255]), n, list(oc))
                 add(tr, extra, {'svc': 'qr_move_scp', 'n': n, 'outcomes': list(oc), 'policy': str(pol)})
+        # nothing to move and no destination (what the default on_receive_move answers): still exactly one final response
+        tr, extra = K.run_move_scp(rng, pol, rng.choice(K.MIDS), rng.choice([1, 3, 255]), 0, [], known=False)
+        add(tr, extra, {'svc': 'qr_move_scp', 'n': 0, 'outcomes': [], 'policy': str(pol), 'destination': 'unknown'})
         for n in (7, 20, 50):
             tr, extra = K.run_move_scp(rng, pol, rng.choice(K.MIDS), 1, n, [rng.choice(outs) for _ in range(n)])
             add(tr, extra, {'svc': 'qr_move_scp', 'n': n, 'policy': str(pol)})
